@@ -127,6 +127,9 @@ def build_lib_facts(features, debug, dest, repo=None):
     try:
         out = os.path.join(tmp, "out")
         os.makedirs(out)
+        from . import depcache
+        flavor = "lib-dev" if debug else "lib-nodebug"
+        depcache.seed(os.path.join(tmp, "t"), repo, flavor)
         cmd = ["cargo", "+nightly", "check", "--offline", "--lib", "--no-default-features", "-F", ",".join(features)]
         r = subprocess.run(cmd, cwd=repo, env=_env(out, os.path.join(tmp, "t"), ["rust_cc"], debug),
                            stdout=subprocess.PIPE, stderr=subprocess.STDOUT, text=True)
@@ -134,6 +137,8 @@ def build_lib_facts(features, debug, dest, repo=None):
         if r.returncode != 0 or not os.path.exists(fact):
             return False, r.stdout[-6000:]
         shutil.move(fact, dest)
+        if "cleaners" in features:
+            depcache.save(os.path.join(tmp, "t"), repo, flavor)     # the configuration with every optional dependency
         return True, ""
     finally:
         shutil.rmtree(tmp, ignore_errors=True)
@@ -147,6 +152,8 @@ def build_derive_facts(dest, repo=None):
     try:
         out = os.path.join(tmp, "out")
         os.makedirs(out)
+        from . import depcache
+        depcache.seed(os.path.join(tmp, "t"), repo, "derive")
         cmd = ["cargo", "+nightly", "check", "--offline", "-p", "rust-cc-derive"]
         r = subprocess.run(cmd, cwd=repo, env=_env(out, os.path.join(tmp, "t"), ["rust_cc_derive"], True),
                            stdout=subprocess.PIPE, stderr=subprocess.STDOUT, text=True)
@@ -154,6 +161,7 @@ def build_derive_facts(dest, repo=None):
         if r.returncode != 0 or not os.path.exists(fact):
             return False, r.stdout[-6000:]
         shutil.move(fact, dest)
+        depcache.save(os.path.join(tmp, "t"), repo, "derive")
         return True, ""
     finally:
         shutil.rmtree(tmp, ignore_errors=True)
@@ -181,6 +189,7 @@ def _prune():
         return
     ds.sort(key=lambda d: os.path.getmtime(d), reverse=True)
     now = time.time()
+    ds = [d for d in ds if os.path.basename(d) != "deps"]
     for d in ds[8:]:
         # never remove a directory another process may be filling right now
         if now - os.path.getmtime(d) > 1500:
